@@ -62,7 +62,11 @@ package breaker
 //@   ensures [no-fallback] rejected && fallback == nil ==> result == ErrServiceUnavailable
 //@   ensures [one-outcome] !rejected ==> calls(req) == 1 && calls(markSuccess) + calls(markFailure) == 1 && result == ret(req) && calls(fallback) == 0
 //@   ensures [success-iff-acceptable] !rejected ==> calls(acceptable, ret(req)) == 1 && (calls(b.markSuccess) == 1) == ret(acceptable)
-//@   panic-ensures [panic-is-failure] panicked(req) && calls(b.markFailure) == 1 && calls(markSuccess) == 0
+//@   may-panic fallback
+//@   panic-ensures [panic-is-failure] calls(req) == 1 ==> panicked(req) && calls(b.markFailure) == 1 && calls(markSuccess) == 0
+// a rejected call records nothing, also when its fallback panics (the protected function never ran: the history
+// counts admitted calls only, and a panicking fallback must not push a rejecting breaker further from recovery)
+//@   panic-ensures [rejected-records-nothing-even-if-the-fallback-panics] calls(req) == 0 ==> rejected && calls(fallback) == 1 && panicked(fallback) && calls(markFailure) + calls(markSuccess) == 0
 
 //@ func (*googleBreaker).allow
 //@   prop C01
